@@ -27,6 +27,6 @@ What kind of change: a plausible bug a developer could introduce (an off-by-one,
 
 Deliverables in {out}/:
 1. patch.diff  — output of `git -C {wt} diff` (source change only; no test/demo files in it).
-2. The demonstration: source of a test or small program/script (plus a `run_demo.sh` that builds and runs it against the build in {wt}/_b, exits 0 when the property holds and non-zero when violated). It must FAIL with your change applied and PASS on the unmodified code — verify both (use `git stash` / `git stash pop` or `git apply -R` and rebuild).
+2. The demonstration: source of a test or small program/script (plus a `run_demo.sh` that builds and runs it against the build in {wt}/_b, exits 0 when the property holds and non-zero when violated). It must FAIL with your change applied and PASS on the unmodified code — verify both (revert with `git apply -R patch.diff` and re-apply with `git apply patch.diff`, rebuilding each time; do NOT use `git stash`: the stash is shared with other worktrees).
 3. README.md — what the change does, why it violates the property, exactly what is needed for it to manifest (input / sequence / schedule / fault point), and the commands you ran with their observed results (tests pass with patch; demo fails with patch; demo passes without patch).
 Leave the worktree with the patch APPLIED and built when you finish. Report back briefly: the one-line idea of the change, files touched, and whether all three verifications succeeded.""")
